@@ -192,9 +192,40 @@ def examine_hand(case):
     return out
 
 
+def examine_milli(case):
+    """Tyrving race times written to the THOUSANDTH (text: s.xxx, and m:ss.xxx from one minute up): along consecutive
+    thousandths a slower time never scores more."""
+    g, e, age = case['gender'], case['event'], case['age']
+    out = []
+    prev = None
+    for ms in range(case['lo'], case['hi'] + 1):
+        sec, frac = divmod(ms, 1000)
+        texts = ['%d.%03d' % (sec, frac)]
+        if sec >= 60:
+            texts.append('%d:%02d.%03d' % (sec // 60, sec % 60, frac))
+        pts = []
+        for t in texts:
+            r = call(athlib.tyrving_score, g, age, e, t)
+            if r[0] != 'ret' or not isinstance(r[1], int):
+                out.append(V('returns-points', ['tyrving', 'raises' if r[0] == 'exc' else 'type', 'thousandths'], dict(case, lo=ms, hi=ms), r[:3]))
+                return out
+            pts.append(r[1])
+        if len(set(pts)) > 1:
+            out.append(V('monotone', ['tyrving', 'thousandths', 'spelling-differs'], dict(case, lo=ms, hi=ms), dict(zip(texts, pts))))
+            return out
+        if prev is not None and pts[0] > prev[1]:
+            out.append(V('monotone', ['tyrving', 'thousandths', 'slower-scores-more'], dict(case, lo=prev[0], hi=ms),
+                         {'faster': [prev[0], prev[1]], 'slower': [ms, pts[0]]}))
+            return out
+        prev = (ms, pts[0])
+    return out
+
+
 def examine_any(case):
     if case.get('kind') == 'hand':
         return examine_hand(case)
+    if case.get('kind') == 'milli':
+        return examine_milli(case)
     return examine(case)
 
 
@@ -370,6 +401,12 @@ def shard(ctx, payload):
                     for k in range(1, b10 // 360000 + 1):
                         ctx.violations(examine(dict(base, form='hms2', lo=max(a10, k * 360000 - 300), hi=min(b10, k * 360000 + 300)), ctx))
                     ctx.label('tyrving-hour-forms')
+                # times to the thousandth across two whole-second marks near the table's base performance
+                for s0 in (b0 // 100, b0 // 100 + 7):
+                    mc = {'kind': 'milli', 'gender': g, 'event': ev, 'age': age, 'lo': s0 * 1000 - 25, 'hi': s0 * 1000 + 25}
+                    ctx.count(51)
+                    ctx.violations(examine_milli(mc))
+                ctx.label('tyrving-thousandths')
                 hc = {'kind': 'hand', 'gender': g, 'event': ev, 'age': age, 'lo': a10, 'hi': b10}
                 ctx.count((b10 - a10) // 10 + 1)
                 ctx.violations(examine_hand(hc))
@@ -439,4 +476,6 @@ _sweep_examine = examine
 def examine(case, ctx=None):   # noqa: F811
     if case.get('kind') == 'hand':
         return examine_hand(case)
+    if case.get('kind') == 'milli':
+        return examine_milli(case)
     return _sweep_examine(case, ctx)
